@@ -1,8 +1,10 @@
 (* Correspondence checker for the `static` driver (C12).
    TreeCase: a generated call tree executed as a real transaction (EOA --CALL--> root code); observed: receipt status,
      the 32-byte word returned by the root (bit i set iff the call of leaf i succeeded and was not reverted), and whether
-     any non-fee state changed or any log was emitted (the auth module's global account number aside), and whether that
-     account number counter moved.
+     any non-fee state changed or any log was emitted (the auth module's global account number counter aside; accounts
+     created by a method that took effect are state changes like any other), and whether an account number was drawn
+     that no account holds afterwards (the trace of evm.Call creating an account for an account-less precompile
+     address; a number held by a newly created account is a method's effect and does not count).
    TableCase: the method table of one registered contract, regenerated from the running code
      (NewCustomPrecompiledContractMethod over GetMethodExecutors): must equal the model's expected table for that
      contract type and satisfy "state-changing methods charge a non-zero gas cost".
